@@ -45,7 +45,7 @@ Eff(schema, m) == CASE schema = "main" -> (IF HasNoneKey(m) THEN "s1" ELSE "main
 Kinds == {"sel", "orm", "ins", "upd", "del", "lam", "ddl"}
 Froms == {"a", "join", "outer", "s1", "xjoin"}
 Crits == {"none", "eq", "in", "eqand", "orin"}
-LamKinds == {"lscalar", "llist", "lcol", "ltab", "lmulti", "lwhere", "lcrit"}
+LamKinds == {"lscalar", "llist", "lcol", "ltab", "lmulti", "lwhere", "lcrit", "lexpr"}
 Wraps == {"none", "subq", "cte", "union", "exists"}
 Decos == {"none", "limit", "label", "distinct"}
 Opts == {"none", "selectin", "joined", "defer", "ret"}
@@ -82,10 +82,11 @@ Flat(q) == IF q = <<>> THEN <<>> ELSE Head(q) \o Flat(Tail(q))
 Card(S) == Cardinality(S)
 
 \* ------------------------------------------------------------------ structure-relevant part of a valuation
-UsesEq(s) == s.c \in {"eq", "eqand", "orin", "lscalar", "lcol", "ltab", "lmulti", "lcrit"}
+UsesEq(s) == s.c \in {"eq", "eqand", "orin", "lscalar", "lcol", "ltab", "lmulti", "lcrit", "lexpr"}
 UsesList(s) == s.c \in {"in", "orin", "llist", "lwhere"}
 \* `col == None` renders IS NULL: a different statement structure, hence a different cache key (insert VALUES keep a bind)
-Dev(s, v) == LamNoneBind /\ s.k = "lam" /\ UsesEq(s) /\ v.a = 0          \* the named deviation applies to this execution
+\* ("lexpr": the closure holds the finished criterion `a.c.x == v`, built OUTSIDE the lambda - a None there is an honest IS NULL)
+Dev(s, v) == LamNoneBind /\ s.k = "lam" /\ UsesEq(s) /\ s.c # "lexpr" /\ v.a = 0          \* the named deviation applies to this execution
 Struct(s, v) == IF s.k # "ins" /\ UsesEq(s) /\ v.a = 0 /\ ~Dev(s, v) THEN "null" ELSE "val"
 InLen(s, v) == IF UsesList(s) THEN Len(v.l) ELSE 0 - 1
 \* closure values of a lambda that are not literals take part in the cache key
@@ -96,7 +97,7 @@ ColVal(col, i) == IF col = "x" THEN X[i] ELSE Y[i]
 Sat(s, v, i) ==
    CASE Dev(s, v) -> FALSE                      \* x = NULL is never true
      [] s.c = "none" -> TRUE
-     [] s.c \in {"eq", "lscalar", "ltab", "lcrit"} -> X[i] = v.a
+     [] s.c \in {"eq", "lscalar", "ltab", "lcrit", "lexpr"} -> X[i] = v.a
      [] s.c \in {"in", "llist"} -> X[i] # 0 /\ X[i] \in Range(v.l)
      [] s.c = "eqand" -> X[i] = v.a /\ Y[i] = v.b
      [] s.c = "orin" -> X[i] = v.a \/ Y[i] \in Range(v.l)
@@ -142,7 +143,7 @@ EqB(v) == IF v.a = 0 THEN <<>> ELSE <<v.a>>
 CritB(s, v) == CASE Dev(s, v) -> IF s.c = "lmulti" THEN <<NullBind, v.b>> ELSE <<NullBind>>
                  [] s.c = "none" -> <<>> [] s.c = "eq" -> EqB(v) [] s.c = "in" -> v.l
                  [] s.c = "eqand" -> EqB(v) \o <<v.b>> [] s.c = "orin" -> EqB(v) \o v.l
-                 [] s.c \in {"lscalar", "ltab", "lcol", "lcrit"} -> EqB(v)
+                 [] s.c \in {"lscalar", "ltab", "lcol", "lcrit", "lexpr"} -> EqB(v)
                  [] s.c = "llist" -> v.l
                  [] s.c = "lmulti" -> EqB(v) \o <<v.b>>
                  [] s.c = "lwhere" -> <<v.b>> \o v.l
@@ -160,7 +161,7 @@ EqX(v) == IF v.a = 0 THEN <<>> ELSE << <<v.a>> >>
 CritX(s, v) == CASE Dev(s, v) -> IF s.c = "lmulti" THEN << <<NullBind>>, <<v.b>> >> ELSE << <<NullBind>> >>
                  [] s.c = "none" -> <<>> [] s.c = "eq" -> EqX(v) [] s.c = "in" -> << v.l >>
                  [] s.c = "eqand" -> EqX(v) \o << <<v.b>> >> [] s.c = "orin" -> EqX(v) \o << v.l >>
-                 [] s.c \in {"lscalar", "ltab", "lcol", "lcrit"} -> EqX(v)
+                 [] s.c \in {"lscalar", "ltab", "lcol", "lcrit", "lexpr"} -> EqX(v)
                  [] s.c = "llist" -> << v.l >>
                  [] s.c = "lmulti" -> EqX(v) \o << <<v.b>> >>
                  [] s.c = "lwhere" -> << <<v.b>>, v.l >>
